@@ -13,8 +13,9 @@
 (*                                                        StartRequest,    *)
 (*                                                        EndOk, EndErr,   *)
 (*                                                        CacheSet         *)
-(*   cache.go        queryCache.get / set / gc            CacheGet,        *)
-(*                                                        CacheSet, Expire *)
+(*   cache.go        queryCache.get / set / gc, now()     CacheGet,        *)
+(*                                                        CacheSet, Evict, *)
+(*                                                        Advance          *)
 (*   A question (instant query, config, flags, metadata, range query) has  *)
 (*   ONE lock key (LockKeyOf) and fans out into one or more requests       *)
 (*   (ReqsOf; several only for a range query = its aligned slices). The    *)
@@ -37,7 +38,10 @@ CONSTANTS Callers,     \* goroutines calling Query / RangeQuery / Config / Flags
           ReqsOf,      \* [Questions -> SUBSET STRING]    cache keys of the requests it fans out into
           QueueCap,    \* capacity of prom.queries (= concurrency * 10 in the code)
           MaxFail,     \* bound on injected request failures
-          MaxExpire    \* bound on cache expiries (TTL / gc)
+          MaxExpire,   \* bound on clock advances (each may expire entries)
+          TTLOf,       \* [STRING -> Nat]  querier.CacheTTL() per request key
+          MaxStale,    \* queryCache.maxStale: entries not looked up for this long are evicted by gc
+          Advances     \* SUBSET Nat: amounts by which the environment lets time pass
 
 VARIABLES ask,        \* [Callers -> Questions]
           cpc,        \* caller pc: "wantLock" | "locked" | "done"
@@ -50,7 +54,9 @@ VARIABLES ask,        \* [Callers -> Questions]
           queue,      \* prom.queries
           mail,       \* results on their way through job.result channels: [job -> result]
           wpc, wjob, wres,   \* worker pc / job in hand / result in hand
-          cache,      \* queryCache.entries: function, DOMAIN = keys present, value = answer version
+          cache,      \* queryCache.entries: function, DOMAIN = keys present,
+                      \*   value = [v: answer version, exp: expiresAt, last: lastGet]
+          now,        \* queryCache.now(): the clock
           inflight,   \* {<<worker, key>>} requests between StartRequest and End*   (= server side in flight)
           nreq, nfail, nexp,  \* per key: requests the server saw, failed requests, expiries (history)
           budget      \* <<failures left, expiries left>>
@@ -58,7 +64,7 @@ VARIABLES ask,        \* [Callers -> Questions]
 cvars == <<ask, cpc, clk, sent, got, cancelled, reply>>
 wvars == <<wpc, wjob, wres>>
 hvars == <<nreq, nfail, nexp, budget>>
-vars  == <<cvars, locked, queue, mail, wvars, cache, inflight, hvars>>
+vars  == <<cvars, locked, queue, mail, wvars, cache, now, inflight, hvars>>
 
 -----------------------------------------------------------------------------
 Err    == [ok |-> FALSE, v |-> 0]
@@ -91,6 +97,7 @@ Init ==
   /\ wjob = [w \in Workers |-> <<>>]
   /\ wres = [w \in Workers |-> Err]
   /\ cache = EmptyFn
+  /\ now = 0
   /\ inflight = {}
   /\ nreq = EmptyFn /\ nfail = EmptyFn /\ nexp = EmptyFn
   /\ budget = <<MaxFail, MaxExpire>>
@@ -109,7 +116,7 @@ Lock(c, lk) ==
   /\ locked' = locked \cup {lk}
   /\ clk' = [clk EXCEPT ![c] = lk]
   /\ cpc' = [cpc EXCEPT ![c] = "locked"]
-  /\ UNCHANGED <<ask, sent, got, cancelled, reply, queue, mail, wvars, cache, inflight, hvars>>
+  /\ UNCHANGED <<ask, sent, got, cancelled, reply, queue, mail, wvars, cache, now, inflight, hvars>>
 
 \* prom.queries <- queryRequest{...}   (one per question; one per slice for a range query, each
 \* from its own goroutine and without taking the locker)
@@ -118,7 +125,7 @@ Enqueue(c, k) ==
   /\ EnqueueG(c, k)
   /\ sent' = [sent EXCEPT ![c] = @ \cup {k}]
   /\ queue' = Append(queue, [caller |-> c, key |-> k])
-  /\ UNCHANGED <<ask, cpc, clk, got, cancelled, reply, locked, mail, wvars, cache, inflight, hvars>>
+  /\ UNCHANGED <<ask, cpc, clk, got, cancelled, reply, locked, mail, wvars, cache, now, inflight, hvars>>
 
 \* result := <-resultChan ; in RangeQuery a failed slice cancels the context of the others
 ReceiveG(c, j) == j.caller = c /\ cpc[c] = "locked" /\ j \in DOMAIN mail
@@ -127,7 +134,7 @@ Receive(c, j) ==
   /\ got' = [got EXCEPT ![c] = @ \cup {<<j.key, mail[j]>>}]
   /\ cancelled' = [cancelled EXCEPT ![c] = @ \/ ~mail[j].ok]
   /\ mail' = Without(mail, j)
-  /\ UNCHANGED <<ask, cpc, clk, sent, reply, locked, queue, wvars, cache, inflight, hvars>>
+  /\ UNCHANGED <<ask, cpc, clk, sent, reply, locked, queue, wvars, cache, now, inflight, hvars>>
 
 \* all results collected -> the deferred partitionLocker.unlock runs and the call returns
 UnlockG(c) == cpc[c] = "locked" /\ sent[c] # {} /\ KeysOf(got[c]) = sent[c]
@@ -138,7 +145,7 @@ Unlock(c) ==
                                     ok   |-> \A g \in got[c] : g[2].ok,
                                     ans  |-> {<<g[1], g[2].v>> : g \in got[c]}]]
   /\ cpc' = [cpc EXCEPT ![c] = "done"]
-  /\ UNCHANGED <<ask, clk, sent, got, cancelled, queue, mail, wvars, cache, inflight, hvars>>
+  /\ UNCHANGED <<ask, clk, sent, got, cancelled, queue, mail, wvars, cache, now, inflight, hvars>>
 
 -----------------------------------------------------------------------------
 (* Workers: queryWorker / processJob                                       *)
@@ -150,7 +157,7 @@ Dequeue(w, j) ==
   /\ queue' = RemoveAt(queue, IndexOf(queue, j))
   /\ wjob' = [wjob EXCEPT ![w] = <<j>>]
   /\ wpc' = [wpc EXCEPT ![w] = "wantSlice"]
-  /\ UNCHANGED <<cvars, locked, mail, wres, cache, inflight, hvars>>
+  /\ UNCHANGED <<cvars, locked, mail, wres, cache, now, inflight, hvars>>
 
 \* processJob: prom.locker.lock("job/" + cacheKey)
 WLockG(w, lk) == wpc[w] = "wantSlice" /\ lk \notin locked
@@ -158,19 +165,20 @@ WLock(w, lk) ==
   /\ WLockG(w, lk)
   /\ locked' = locked \cup {lk}
   /\ wpc' = [wpc EXCEPT ![w] = "got"]
-  /\ UNCHANGED <<cvars, queue, mail, wjob, wres, cache, inflight, hvars>>
+  /\ UNCHANGED <<cvars, queue, mail, wjob, wres, cache, now, inflight, hvars>>
 
 \* prom.cache.get(cacheKey)
 CacheGetG(w) == wpc[w] = "got"
 CacheGet(w) ==
   /\ CacheGetG(w)
   /\ LET k == Job(w).key IN
-     IF k \in DOMAIN cache
-     THEN /\ wres' = [wres EXCEPT ![w] = Ok(cache[k])]
+     IF k \in DOMAIN cache          \* get() does not look at expiresAt: only gc removes entries
+     THEN /\ wres' = [wres EXCEPT ![w] = Ok(cache[k].v)]
+          /\ cache' = [cache EXCEPT ![k].last = now]
           /\ wpc' = [wpc EXCEPT ![w] = AfterRun]
      ELSE /\ wpc' = [wpc EXCEPT ![w] = "miss"]
-          /\ UNCHANGED wres
-  /\ UNCHANGED <<cvars, locked, queue, mail, wjob, cache, inflight, hvars>>
+          /\ UNCHANGED <<wres, cache>>
+  /\ UNCHANGED <<cvars, locked, queue, mail, wjob, now, inflight, hvars>>
 
 \* job.query.Run(): the request leaves for the server
 StartRequestG(w) == wpc[w] = "miss"
@@ -181,14 +189,14 @@ StartRequest(w) ==
      /\ nreq' = Inc(nreq, k)
      /\ wres' = [wres EXCEPT ![w] = Ok(Get(nreq, k) + 1)]    \* the answer carries the request's serial
   /\ wpc' = [wpc EXCEPT ![w] = "running"]
-  /\ UNCHANGED <<cvars, locked, queue, mail, wjob, cache, nfail, nexp, budget>>
+  /\ UNCHANGED <<cvars, locked, queue, mail, wjob, cache, now, nfail, nexp, budget>>
 
 EndOkG(w) == wpc[w] = "running"
 EndOk(w) ==
   /\ EndOkG(w)
   /\ inflight' = inflight \ {<<w, Job(w).key>>}
   /\ wpc' = [wpc EXCEPT ![w] = "ok"]
-  /\ UNCHANGED <<cvars, locked, queue, mail, wjob, wres, cache, hvars>>
+  /\ UNCHANGED <<cvars, locked, queue, mail, wjob, wres, cache, now, hvars>>
 
 \* server-side failure (bounded by MaxFail) or the caller's context was cancelled
 EndErrG(w) == wpc[w] = "running" /\ (budget[1] > 0 \/ cancelled[Job(w).caller])
@@ -199,15 +207,15 @@ EndErr(w) ==
   /\ budget' = IF cancelled[Job(w).caller] THEN budget ELSE <<budget[1] - 1, budget[2]>>
   /\ wres' = [wres EXCEPT ![w] = Err]
   /\ wpc' = [wpc EXCEPT ![w] = AfterRun]
-  /\ UNCHANGED <<cvars, locked, queue, mail, wjob, cache, nreq, nexp>>
+  /\ UNCHANGED <<cvars, locked, queue, mail, wjob, cache, now, nreq, nexp>>
 
 \* prom.cache.set(cacheKey, result, ttl)  - successful answers only
 CacheSetG(w) == wpc[w] = "ok"
-CacheSet(w) ==
+CacheSet(w, ttl) ==
   /\ CacheSetG(w)
-  /\ cache' = (Job(w).key :> wres[w].v) @@ cache
+  /\ cache' = (Job(w).key :> [v |-> wres[w].v, exp |-> now + ttl, last |-> now]) @@ cache
   /\ wpc' = [wpc EXCEPT ![w] = AfterRun]
-  /\ UNCHANGED <<cvars, locked, queue, mail, wjob, wres, inflight, hvars>>
+  /\ UNCHANGED <<cvars, locked, queue, mail, wjob, wres, now, inflight, hvars>>
 
 \* processJob: deferred prom.locker.unlock("job/" + cacheKey)
 WUnlockG(w, lk) == wpc[w] = "wunlock" /\ lk \in locked
@@ -215,7 +223,7 @@ WUnlock(w, lk) ==
   /\ WUnlockG(w, lk)
   /\ locked' = locked \ {lk}
   /\ wpc' = [wpc EXCEPT ![w] = "reply"]
-  /\ UNCHANGED <<cvars, queue, mail, wjob, wres, cache, inflight, hvars>>
+  /\ UNCHANGED <<cvars, queue, mail, wjob, wres, cache, now, inflight, hvars>>
 
 \* job.result <- result. The channel is unbuffered and its reader (the caller, or the slice
 \* goroutine) is always receiving, so the rendezvous is modelled as send-then-receive.
@@ -225,16 +233,25 @@ Send(w) ==
   /\ mail' = (Job(w) :> wres[w]) @@ mail
   /\ wpc' = [wpc EXCEPT ![w] = "idle"]
   /\ wjob' = [wjob EXCEPT ![w] = <<>>]
-  /\ UNCHANGED <<cvars, locked, queue, wres, cache, inflight, hvars>>
+  /\ UNCHANGED <<cvars, locked, queue, wres, cache, now, inflight, hvars>>
 
-\* environment: TTL expiry / cacheCleaner gc
-ExpireG(k) == k \in DOMAIN cache /\ budget[2] > 0
-Expire(k) ==
-  /\ ExpireG(k)
+\* environment: time passes
+AdvanceG(d) == budget[2] > 0
+Advance(d) ==
+  /\ AdvanceG(d)
+  /\ now' = now + d
+  /\ budget' = <<budget[1], budget[2] - 1>>
+  /\ UNCHANGED <<cvars, locked, queue, mail, wvars, cache, inflight, nreq, nfail, nexp>>
+
+\* queryCache.gc (cacheCleaner tick / CleanCache): an entry goes when its TTL is over or when nobody
+\* looked it up for maxStale. (gc removes all such entries in one critical section; one per step here.)
+Evictable(k) == k \in DOMAIN cache /\ (cache[k].exp < now \/ now - cache[k].last >= MaxStale)
+EvictG(k) == Evictable(k)
+Evict(k) ==
+  /\ EvictG(k)
   /\ cache' = Without(cache, k)
   /\ nexp' = Inc(nexp, k)
-  /\ budget' = <<budget[1], budget[2] - 1>>
-  /\ UNCHANGED <<cvars, locked, queue, mail, wvars, inflight, nreq, nfail>>
+  /\ UNCHANGED <<cvars, locked, queue, mail, wvars, now, inflight, nreq, nfail, budget>>
 
 AllDone == \A c \in Callers : cpc[c] = "done"
 Terminated == AllDone /\ UNCHANGED vars
@@ -249,14 +266,16 @@ CallerNext(c) ==
 WorkerNext(w) ==
   \/ queue # <<>> /\ Dequeue(w, Head(queue))
   \/ wjob[w] # <<>> /\ WLock(w, SliceKey(Job(w).key))
-  \/ CacheGet(w) \/ StartRequest(w) \/ EndOk(w) \/ EndErr(w) \/ CacheSet(w)
+  \/ CacheGet(w) \/ StartRequest(w) \/ EndOk(w) \/ EndErr(w)
+  \/ wjob[w] # <<>> /\ CacheSet(w, TTLOf[Job(w).key])
   \/ wjob[w] # <<>> /\ WUnlock(w, SliceKey(Job(w).key))
   \/ Send(w)
 
 Next ==
   \/ \E c \in Callers : CallerNext(c)
   \/ \E w \in Workers : WorkerNext(w)
-  \/ \E k \in DOMAIN cache : Expire(k)
+  \/ \E d \in Advances : Advance(d)
+  \/ \E k \in DOMAIN cache : Evict(k)
   \/ Terminated
 
 Spec == Init /\ [][Next]_vars
@@ -296,5 +315,5 @@ TypeOK ==
 
 \* VIEW for the larger MC configurations: the history counters only feed Once/Agree; the
 \* configurations that use the view say so in the notes (it can merge states that differ in history).
-NoHistoryView == <<cvars, locked, queue, mail, wvars, cache, inflight>>
+NoHistoryView == <<cvars, locked, queue, mail, wvars, cache, now, inflight>>
 =============================================================================
